@@ -29,7 +29,7 @@ UNARY = [
     "t[0]", "t[-1]", "t[..., 0]", "t[:, 0]", "t[1:]", "t[:, 1:]", "t[::2]", "t[..., ::2]", "t[..., -1]", "t[t > 0]", "(t > 0).sum()", "(t > 0).float().mean()", "t.clamp(min=0)", "torch.clamp(t, -1, 1)", "t.clamp(max=1)",
     "t * 2 + 1", "t ** 2", "-t", "t % 2", "t // 2", "torch.remainder(t, 3)", "torch.sign(t)", "t.sign()", "(t > 0) & (t < 2)", "(t > 0) | (t < -1)", "~(t > 0)", "torch.where(t > 0, t, -t)", "torch.where(t > 0, 1.0, 0.0)",
     "t.repeat(2, *[1] * (t.dim() - 1))", "torch.stack([t, t])", "torch.stack([t, t], dim=-1)", "torch.cat([t, t])", "torch.cat([t, t], dim=-1)", "t.repeat_interleave(2, dim={d})", "torch.repeat_interleave(t, 2, dim={d})",
-    "t.cumsum(dim={d})", "torch.cumsum(t, dim={d})", "t.prod()", "t.prod(dim={d})", "t.nonzero()", "torch.nonzero(t > 0)", "t.shape", "t.shape[0]", "t.size(-1)", "t.size()", "len(t)", "t.tolist()",
+    "t.cumsum(dim={d})", "torch.cumsum(t, dim={d})", "t.prod()", "t.prod(dim={d})", "t.prod(dim={d}, keepdim=True)", "torch.prod(t, {d})", "t[[0, 1]].prod(dim=0)", "t[[1]].prod(dim=0)", "t.nonzero()", "torch.nonzero(t > 0)", "t.shape", "t.shape[0]", "t.size(-1)", "t.size()", "len(t)", "t.tolist()",
     "t.view(-1)", "t.reshape(t.shape[0], -1)", "t.reshape(-1, t.shape[-1])", "t.unsqueeze(0).expand(2, *t.shape)", "t.bool()", "t.bool().any(dim={d})", "(t != 0).long()", "t.float().floor()", "torch.floor(t / 2)", "torch.round(t / 2)",
     "t.sort(dim={d})[0]", "torch.sort(t, dim={d})[1]", "t.topk(1, dim={d})[1]", "torch.argsort(t, dim={d})", "t.roll(1, {d})", "torch.roll(t, 1, dims={d})", "t.flatten().unique()", "torch.count_nonzero(t)",
     "t.abs().max(dim={d}, keepdim=True)[0]", "torch.maximum(t, -t)", "torch.minimum(t, -t)", "t.masked_fill(t > 0, 9)", "torch.zeros_like(t)", "torch.ones_like(t) * 3", "t.new_zeros(2)", "torch.full_like(t, 2)",
@@ -187,6 +187,7 @@ FRAGMENTS_ANY = [
 
 #: plain python expressions (evaluated by python itself and by the Folder; n, m ints, xs a list of ints, w a bit list)
 PY_TEMPLATES = [
+    "n == 0 or xs[0] // n >= 0", "n > 0 and xs[0] % n >= 0", "xs and xs[0]", "[] or xs", "xs or n", "(n - n) or m", "None or n", "n and None", "not (n and m)", "(n > 100) and (1 // (n - n))", "(n >= 0) or (1 // (n - n))",
     "0 <= n <= 20", "0 < m < n < 30", "m <= n <= m", "1 < m <= 3 != n", "not 0 <= n - 5 <= 1", "n // m", "n % m", "-n // m", "-n % m", "n ** 2", "n << 2", "n >> 1", "n & m", "n | m", "n ^ m", "~n", "n.bit_length()", "int(n / m)", "int(-n / m)", "int(n / 2.5)", "float(n)", "abs(-n)", "bool(n - n)", "min(n, m)", "max(n, m, 3)",
     "divmod(n, m)", "round(n / m)", "round(n / m, 2)", "n / m", "2 ** (n % 5)", "10 ** (-(n % 3))", "bin(n)", "bin(n)[2:]", "bin(n)[2:].zfill(8)", "format(n, 'b')", "format(n, '08b')", "f'{n:05b}'", "f'{n}-{m}'", "str(n) + str(m)", "int('101', 2)", "int(bin(n)[2:], 2)",
     "[int(c) for c in format(n, '06b')]", "[(n >> i) & 1 for i in range(6)]", "[(n >> i) & 1 for i in reversed(range(6))]", "sum((n >> i) & 1 for i in range(8))", "list(range(m))", "list(range(1, m))", "list(range(m, 0, -1))", "list(range(0, n, m))", "len(range(n))",
@@ -311,9 +312,10 @@ def main() -> int:
             node = ast.parse(src, mode="eval").body
             try:
                 want = eval(compile(ast.Expression(node), "<p>", "eval"), dict({"math": math}, **{k: (list(v) if isinstance(v, list) else v) for k, v in env.items()}))
+                raised = False
             except Exception:
                 torch_err += 1
-                want = None
+                want, raised = None, True
             try:
                 got = Folder({k: (PySeq(v) if isinstance(v, list) else v) for k, v in env.items()}, {}).fold(node)
             except Unfoldable:
@@ -322,8 +324,14 @@ def main() -> int:
             except Exception as exc:
                 bad.append((src, env, f"CRASH {type(exc).__name__}: {exc}", None))
                 continue
-            if want is None:
+            if raised:
                 bad.append((src, env, f"python raises, evaluator gives {got!r}", None))
+                continue
+            if want is None or got is None:
+                if want is got:
+                    agree += 1
+                else:
+                    bad.append((src, env, got, want))
                 continue
             w_, g_ = want, got
             if isinstance(w_, (set, frozenset)):
